@@ -333,7 +333,7 @@ thread_local! {
 /// A case that does not come back: code under test looping forever in-process (or a harness defect). The run cannot go on
 /// and must not look like a pass; following the rule "hang / watchdog = inconclusive, never a violation" the harness stops
 /// with exit status 2 after saving the case for diagnosis.
-pub fn start_hang_watchdog(id: &str, failures_dir: &Path, limit: std::time::Duration) {
+pub fn start_hang_watchdog(id: &str, failures_dir: &Path, limit: std::time::Duration, as_violation: bool) {
     let id = id.to_string();
     let dir = failures_dir.to_path_buf();
     std::thread::spawn(move || loop {
@@ -347,10 +347,18 @@ pub fn start_hang_watchdog(id: &str, failures_dir: &Path, limit: std::time::Dura
             let case = thunk(ptr as *const ());
             let v = json!({"property": id, "stage": stage, "sig": "hang", "msg": format!("a single case did not come back within {} s", el.as_secs()), "case": case});
             let p = write_failure(&dir, &id, &v);
-            println!("INCONCLUSIVE a case of stage `{}` did not return within {} s (in-process hang or harness defect); case saved as {}", stage, el.as_secs(), p.display());
             use std::io::Write;
-            let _ = std::io::stdout().flush();
             FINISHED.store(true, Ordering::SeqCst);
+            if as_violation {
+                // pure in-process arithmetic on operands of a few limbs: a case costs microseconds; not coming back for this long
+                // means the operation under test does not return its result
+                println!("violation [hang:{}]: an operation on small operands did not return within {} s", stage, el.as_secs());
+                println!("VIOLATION property={} replay={}", id, p.display());
+                let _ = std::io::stdout().flush();
+                unsafe { libc::_exit(1) }
+            }
+            println!("INCONCLUSIVE a case of stage `{}` did not return within {} s (in-process hang or harness defect); case saved as {}", stage, el.as_secs(), p.display());
+            let _ = std::io::stdout().flush();
             unsafe { libc::_exit(2) }
         }
     });
